@@ -160,3 +160,36 @@ Example C15_parse_example :
      = RTree (VTree "start" (mkMeta (Some (0, 1, 1)) (Some (2, 1, 3)) (Some (0, 1, 1)) (Some (2, 1, 3)))%Z
              [VTok (mkTok "A" [ "a"%char ] 0 1 1 1 2 1); VTok (mkTok "B" [ "b"%char ] 1 1 2 1 3 2)])%Z.
 Proof. vm_compute. split; reflexivity. Qed.
+
+(* ---- round 12: TextSlice index normalisation (regenerated from lark/utils.py:TextSlice) --------------------
+   In-range start / end - negative ones counted from the end, end=None meaning the end - denote Python's
+   text[start:end]: the normalised window lies inside the buffer, so C15_window_shift / C15_parse_window_shift
+   apply to it; __len__ and is_complete_text are what they should be; a plain text is the complete slice. *)
+From LV Require Import Gen.TextSlice Pos.Slice_proofs.
+
+Theorem C15_slice_normalisation n s e :
+  0 <= n -> - n <= s <= n -> (forall z, e = Some z -> - n <= z <= n) ->
+  let s' := py_index n s in
+  let e' := match e with None => n | Some z => py_index n z end in
+  ts_start n s = Some s' /\ ts_end n e = Some e' /\ 0 <= s' <= n /\ 0 <= e' <= n /\
+  ts_len s' e' = e' - s' /\ (ts_complete n s' e' = true <-> s' = 0 /\ e' = n).
+Proof. exact (slice_normalisation n s e). Qed.
+Print Assumptions C15_slice_normalisation.
+
+Theorem C15_cast_from_complete n : 0 <= n ->
+  ts_start n (ts_cast_start n) = Some 0 /\ ts_end n (Some (ts_cast_end n)) = Some n /\ ts_complete n 0 n = true.
+Proof. exact (cast_from_complete n). Qed.
+Print Assumptions C15_cast_from_complete.
+
+(* the in-range hypotheses are needed: __post_init__ accepts an end or a start beyond the buffer and a negative end
+   below -len (its docstring promises AssertionError); only a negative start below -len is rejected.  On the
+   implementation TextSlice("aaa", 0, 10) is accepted and parsing it raises IndexError (finding F52 candidate). *)
+Theorem C15_slice_out_of_range_refuted :
+  ts_end 3 (Some 10) = Some 10 /\ ts_start 3 5 = Some 5 /\ ts_end 3 (Some (-5)) = Some (-2) /\ ts_start 3 (-4) = None.
+Proof. exact out_of_range_accepted. Qed.
+Print Assumptions C15_slice_out_of_range_refuted.
+
+(* Non-vacuity: TextSlice("Hello, World!", 7, -1) = [7, 12) (the docstring's example); (-6, None) = [7, 13) *)
+Example C15_slice_example :
+  ts_start 13 7 = Some 7 /\ ts_end 13 (Some (-1)) = Some 12 /\ ts_start 13 (-6) = Some 7 /\ ts_end 13 None = Some 13.
+Proof. repeat split; reflexivity. Qed.
